@@ -56,6 +56,8 @@ V18s(m, o) ==
     ELSE IF m.pd /\ o.err # m.pe            THEN "C18/err-changed-after-done"
     ELSE IF o.cbad > m.pcbad /\ ~Racing(o)  THEN "C18/retry-callback-after-done"
     ELSE IF o.done /\ o.fin = 0             THEN "C18/done-without-finally"
+    \* (finad: runs of the completion callback that began with Done already closed - recorded by the callback itself)
+    ELSE IF o.finad > 0                     THEN "C18/done-closed-before-finally"
     ELSE ""
 \* signature = symptom / kind [/ how the transaction had finished, for retries after Done]
 V18(m, o) == IF V18s(m, o) = "" THEN ""
